@@ -252,6 +252,66 @@ func c29(repo string, out *fg.Out) error {
 		return fmt.Errorf("executeAggregation parameter list changed (expected `…, startTime, _ time.Time`)")
 	}
 
+	// ---- error propagation of the destination write: exactly one WriteColumnarRecord call, guarded as
+	// `if err := …WriteColumnarRecord(…); err != nil { return 0, … }` directly in the function body
+	writeStep := "missing"
+	nWrites := len(fg.CallsNamed(fdAgg.Body, "WriteColumnarRecord"))
+	for _, st := range fdAgg.Body.List {
+		is, ok := st.(*ast.IfStmt)
+		if !ok || is.Init == nil {
+			continue
+		}
+		as, ok := is.Init.(*ast.AssignStmt)
+		if !ok || len(as.Lhs) != 1 || len(as.Rhs) != 1 || as.Tok != token.DEFINE {
+			continue
+		}
+		c, ok := as.Rhs[0].(*ast.CallExpr)
+		if !ok || fg.CalleeName(c) != "WriteColumnarRecord" {
+			continue
+		}
+		v := f.Text(as.Lhs[0])
+		if f.Text(is.Cond) == v+" != nil" && is.Else == nil && len(is.Body.List) == 1 {
+			if rs, ok := is.Body.List[0].(*ast.ReturnStmt); ok && len(rs.Results) == 2 && f.Text(rs.Results[0]) == "0" &&
+				strings.Contains(f.Text(rs.Results[1]), v) {
+				writeStep = "if err := write; err != nil { return 0, wrap(err) }"
+			}
+		}
+	}
+	if nWrites != 1 {
+		writeStep = fmt.Sprintf("%d WriteColumnarRecord calls", nWrites)
+	} else if writeStep == "missing" {
+		writeStep = "write error not returned by a top-level `if err := …; err != nil { return 0, … }`"
+	}
+	// the success return must be the last statement and report len(records)
+	if last, ok := fdAgg.Body.List[len(fdAgg.Body.List)-1].(*ast.ReturnStmt); !ok || len(last.Results) != 2 ||
+		f.Text(last.Results[0]) != "int64(len(records))" || f.Text(last.Results[1]) != "nil" {
+		return fmt.Errorf("executeAggregation no longer ends with `return int64(len(records)), nil`")
+	}
+
+	// ---- every assignment to startTime / endTime in the two execution paths (no clamp, no rounding)
+	assigns := func(fd *ast.FuncDecl, name string) []string {
+		var out []string
+		ast.Inspect(fd.Body, func(n ast.Node) bool {
+			as, ok := n.(*ast.AssignStmt)
+			if !ok {
+				return true
+			}
+			for i, l := range as.Lhs {
+				if id, ok := l.(*ast.Ident); ok && id.Name == name {
+					if len(as.Rhs) == len(as.Lhs) {
+						out = append(out, f.Text(as.Rhs[i]))
+					} else {
+						out = append(out, f.Text(as.Rhs[0]))
+					}
+				}
+			}
+			return true
+		})
+		return out
+	}
+	execStart, execEnd := assigns(fdExec, "startTime"), assigns(fdExec, "endTime")
+	manStart, manEnd := assigns(fdMan, "startTime"), assigns(fdMan, "endTime")
+
 	// ---- handleUpdate must not touch the cursor
 	fdUpd, err := need("ContinuousQueryHandler", "handleUpdate")
 	if err != nil {
@@ -300,6 +360,11 @@ func c29(repo string, out *fg.Out) error {
 	fmt.Fprintf(w, "def recordCallers : List String := %s\n", list(recCallers))
 	fmt.Fprintf(w, "def updateLastProcessedTimeCallers : List String := %s\n", list(updCallers))
 	fmt.Fprintf(w, "def labelExpr : String := %s\n", fg.LeanStr(label))
+	fmt.Fprintf(w, "def writeStep : String := %s\n", fg.LeanStr(writeStep))
+	fmt.Fprintf(w, "def executeCQStartAssigns : List String := %s\n", list(execStart))
+	fmt.Fprintf(w, "def executeCQEndAssigns : List String := %s\n", list(execEnd))
+	fmt.Fprintf(w, "def handleExecuteStartAssigns : List String := %s\n", list(manStart))
+	fmt.Fprintf(w, "def handleExecuteEndAssigns : List String := %s\n", list(manEnd))
 	fmt.Fprintf(w, "def windowFormat : String := \"time.RFC3339\"\n")
 	fmt.Fprintf(w, "def schedulerCalls : List String := %s\n", list(schedCalls))
 	fmt.Fprintf(w, "end Arc.Generated.C29\n")
@@ -311,6 +376,8 @@ func c29(repo string, out *fg.Out) error {
 	out.JSON["cursor_writers"] = writers
 	out.JSON["record_callers"] = recCallers
 	out.JSON["label_expr"] = label
+	out.JSON["write_step"] = writeStep
+	out.JSON["execute_cq_start_assigns"] = execStart
 	out.JSON["scheduler_calls"] = schedCalls
 	return nil
 }
